@@ -373,6 +373,27 @@ static kdump_status query_attr(kdump_ctx_t *ctx, const char *key, const uint64_t
 	return st;
 }
 
+/* the file set of an object: as many file.set.<N> slots as file.set.number says, numbered 0..number-1, each with exactly
+ * one `fd` and one `name` child; through the public interface the key behind the last slot does not exist */
+static void fileset_check(kdump_ctx_t *ctx, const char *who)
+{
+	struct attr_data *d, *c;
+	size_t num = get_num_files(ctx), slots = 0;
+	char key[40]; kdump_attr_ref_t ref; kdump_status st;
+	for (d = gattr(ctx, GKI_dir_file_set)->dir; d; d = d->next) {
+		int nfd = 0, nname = 0;
+		if (d->template->type != KDUMP_DIRECTORY) continue;
+		++slots;
+		if (d->template->fidx >= num) { follow("%s:stale-file.set.%zu-of-%zu", who, (size_t)d->template->fidx, num); return; }
+		for (c = d->dir; c; c = c->next) { nfd += !strcmp(c->template->key, "fd"); nname += !strcmp(c->template->key, "name"); }
+		if (nfd != 1 || nname != 1) { follow("%s:file.set.%zu-has-%d-fd-%d-name", who, (size_t)d->template->fidx, nfd, nname); return; }
+	}
+	if (slots != num) { follow("%s:%zu-slots-for-%zu-files", who, slots, num); return; }
+	snprintf(key, sizeof key, "file.set.%zu", num);
+	st = kdump_attr_ref(ctx, key, &ref);
+	if (st == KDUMP_OK) { kdump_attr_unref(ctx, &ref); follow("%s:key-%s-exists", who, key); }
+}
+
 /* ------------------------------------------------------------ scenarios */
 static addrxlat_status no_page(const addrxlat_cb_t *cb, addrxlat_buffer_t *buf)
 {
@@ -642,6 +663,9 @@ static void run_case(const char *sc, unsigned long n, int argc, char **argv)
 					st = kdump_set_attr(ctx, "linux.vmcoreinfo.raw", &a);	/* the reference goes to the attribute */
 				}
 			}
+		} else if (!strncmp(kind, "nfiles", 6)) {
+			/* nfiles<k>: the number of files of the set is raised to k (k slots file.set.<N>.{fd,name} are created) */
+			st = set_num(ctx, "file.set.number", atoi(kind + 6));
 		} else if (!strcmp(kind, "iter")) {
 			kdump_attr_iter_t it;
 			st = kdump_attr_iter_start(ctx, "addrxlat.default", &it);
@@ -653,7 +677,59 @@ static void run_case(const char *sc, unsigned long n, int argc, char **argv)
 		window_close();
 		snprintf(RES->ret, sizeof RES->ret, "%s%s", kstatus_name(st), c16_monitor(ctx, st));
 		stage("followup");
-		if (RES->locks == 0) ctx_alive(ctx, "ctx");
+		if (RES->locks == 0) {
+			ctx_alive(ctx, "ctx");
+			fileset_check(ctx, "ctx");
+			if (!strncmp(kind, "nfiles", 6)) {
+				/* and the file set can still be given another size */
+				if (set_num(ctx, "file.set.number", 2) != KDUMP_OK) follow("file.set.number-2");
+				fileset_check(ctx, "resized");
+				if (set_num(ctx, "file.set.number", 4) != KDUMP_OK) follow("file.set.number-4");
+				fileset_check(ctx, "resized");
+			}
+		}
+	} else if (!strcmp(sc, "fdset")) {
+		/* fdset <p1,p2,..> <policy> <pages of the set> <single dump> <its pages> <slots registered before> : a SET of dump
+		 * files is opened with the fault armed (kdump_open_fdset grows file.set.number, creating file.set.<N>.{fd,name});
+		 * the survivor must hold the file set it had, open a single file (through an array of exactly one descriptor),
+		 * and then the whole set again */
+		int policy = atoi(argv[1]), pre = argc > 5 ? atoi(argv[5]) : 0, nf = 0, i;
+		int fds[8]; char *q, *paths = argv[0];
+		uint64_t pages1[64]; int np1 = 0;
+		size_t num0;
+		kdump_status st;
+		np = parse_list(argv[2], pages, 256);
+		if (argc > 4) np1 = parse_list(argv[4], pages1, 64);
+		ctx = fresh(0, "-", policy, &fd);
+		if (!ctx) return;
+		if (pre && set_num(ctx, "file.set.number", pre) != KDUMP_OK) follow("setup:file.set.number");
+		for (q = strtok(paths, ","); q && nf < 8; q = strtok(NULL, ",")) fds[nf++] = open(q, O_RDONLY);
+		num0 = get_num_files(ctx);
+		stage("call"); window_open(n);
+		st = kdump_open_fdset(ctx, nf, fds);
+		window_close();
+		snprintf(RES->ret, sizeof RES->ret, "%s%s", kstatus_name(st), c16_monitor(ctx, st));
+		snprintf(RES->par, sizeof RES->par, "files=%d,pre=%d", nf, pre);
+		stage("followup");
+		if (RES->locks == 0) {
+			int *one = __real_malloc(sizeof(int));		/* exactly one descriptor: reading a second one is reported */
+			fileset_check(ctx, "set");
+			if (st != KDUMP_OK && RES->inj && get_num_files(ctx) != num0 && get_num_files(ctx) != (size_t)nf)
+				follow("set:file.set.number-%zu-was-%zu", get_num_files(ctx), num0);
+			ctx_alive(ctx, "ctx");
+			if (st == KDUMP_OK) sweep(ctx, pages, np, ps, "set");
+			fd0 = open(argv[3], O_RDONLY);
+			*one = fd0;
+			st = kdump_open_fdset(ctx, 1, one);
+			if (st != KDUMP_OK) follow("single-open-%s", kstatus_name(st));
+			else { fileset_check(ctx, "single"); sweep(ctx, pages1, np1, ps, "single"); }
+			st = kdump_open_fdset(ctx, nf, fds);
+			if (st != KDUMP_OK) follow("set-reopen-%s", kstatus_name(st));
+			else { fileset_check(ctx, "set-again"); sweep(ctx, pages, np, ps, "set-again"); }
+			__real_free(one);
+		}
+		if (RES->locks == 0) { kdump_free(ctx); ctx = NULL; }
+		for (i = 0; i < nf; ++i) close(fds[i]);
 	} else if (!strcmp(sc, "free")) {
 		ctx = fresh(argc > 1 ? atoi(argv[1]) : 0, path, -1, &fd);
 		if (!ctx) return;
